@@ -1,5 +1,4 @@
-import PsyVerif.Model.MiniFIO
-import PsyVerif.Model.RegionData
+import PsyVerif.Model.RegionDataIO
 open Proto MiniF RegionData
 
 def sortNat (l : List Nat) : List Nat := (l.toArray.qsort (· < ·)).toList
@@ -13,13 +12,8 @@ def showClauses (c : Clauses) : String := showNats c.cin ++ " " ++ showNats c.co
 /-- contents of freshly allocated device memory: a different junk value in every cell -/
 def junk (g : Int) : Store := ⟨fun l => g + 1009 * (l.1 : Int) + 13 * l.2.1 + 101 * l.2.2⟩
 
-@[noinline] def runAcc (σ : Store) (c : Clauses) (region : Stmt) (g : Int) (qs : List Loc) : String :=
-  "(" ++ answer (execACC c region σ (junk g)) qs ++ " " ++ answer (exec region σ) qs ++ ")"
-
-def parseItem : Sexp → Option Item
-  | .list [.atom "s", p] => (parseStmt p).map Item.stmt
-  | .list [.atom "x"] => some .excluded
-  | _ => none
+@[noinline] def runAcc (σ : Store) (c : Clauses) (region : RStmt) (g : Int) (qs : List Loc) : String :=
+  "(" ++ answer (execACC driverFuel c region σ (junk g)) qs ++ " " ++ answer (rexec driverFuel region σ) qs ++ ")"
 
 /-- `(clauses <stmt>)` → `((copyin) (copyout) (copy) FullyWrittenOrRead CopyoutNotRead)`;
 `(trans <hasEnterData> (<items>))` → `refuse` or the clause lists;
@@ -28,7 +22,7 @@ region run with the GIVEN clause lists and device junk `g`, and after host execu
 def handle (s : Sexp) : String :=
   match s with
   | .list [.atom "clauses", p] =>
-    match parseStmt p with
+    match parseRStmt p with
     | none => "bad-stmt"
     | some st =>
       "(" ++ showClauses (clauses st) ++ " " ++ b01 (decide (FullyWrittenOrRead st)) ++ " "
@@ -41,9 +35,9 @@ def handle (s : Sexp) : String :=
       | none => "refuse"
       | some c => "(" ++ showClauses c ++ ")"
   | .list [.atom "execacc", pre, reg, ci, co, cp, g, qs] =>
-    match parseStmt pre, parseStmt reg, g.int? with
+    match parseRStmt pre, parseRStmt reg, g.int? with
     | some pr, some rg, some gv =>
-      runAcc (exec pr (storeOf [])) ⟨ci.natList, co.natList, cp.natList⟩ rg gv (qs.items.filterMap parseLoc)
+      runAcc (rexec driverFuel pr (storeOf [])) ⟨ci.natList, co.natList, cp.natList⟩ rg gv (qs.items.filterMap parseLoc)
     | _, _, _ => "bad-stmt"
   | _ => "bad-op"
 
